@@ -227,6 +227,47 @@ fn gen_s(r: &mut Prng, big: bool) -> Case {
     case
 }
 
+/// Family R: registration-only races.  The threads only (re-)register a few infix operators with
+/// DIFFERENT complete configurations (precedence, associativity, handler); nothing is parsed or
+/// evaluated while they run, so no evaluation can observe a registration half-way.  After the join,
+/// unparenthesised chains reveal precedence, associativity and handler of what is registered: it must
+/// be exactly ONE of the configurations (the last one in some sequential order), never a mixture.
+fn gen_r(r: &mut Prng) -> Case {
+    let mut case = Case::new("R");
+    let names: Vec<String> = (0..(1 + r.usize(2))).map(|i| format!("rw{}", i)).collect();
+    let mk = |case: &mut Case, r: &mut Prng, name: &str| -> Op {
+        let h = case.add_handler(HandlerSpec::plain(HKind::Infix, Ret::Marker));
+        Op::RegIn { name: name.into(), prec: *r.pick(&[30, 105, 115, 125]), setter: false, right: r.chance(1, 2), h }
+    };
+    if r.chance(1, 2) {
+        case.pre.push(Op::Exec { prog: Prog::one(lit_i(1)), ctx: CtxRef::Fresh(CtxSpec::empty()) });
+    }
+    for n in &names {
+        if r.chance(2, 3) {
+            let op = mk(&mut case, r, n);
+            case.pre.push(op);
+        }
+    }
+    let nthreads = 2 + r.usize(3);
+    for _ in 0..nthreads {
+        let mut ops = vec![];
+        for _ in 0..(1 + r.usize(2)) {
+            let n = r.pick(&names).clone();
+            ops.push(mk(&mut case, r, &n));
+        }
+        case.threads.push(ops);
+    }
+    for n in &names {
+        let ops = |a: &str, b: &str| vec![a.to_string(), b.to_string()];
+        case.post.push(Op::Exec {
+            prog: Prog::Chain(vec![lit_i(1), lit_i(2), lit_i(3), lit_i(4)], vec!["+".into(), n.clone(), "*".into()]),
+            ctx: CtxRef::Fresh(CtxSpec::empty()),
+        });
+        case.post.push(Op::Parse { prog: Prog::Chain(vec![rf("a"), rf("b"), rf("c")], ops(n, n)) });
+    }
+    case
+}
+
 /// The four torn-read probes (DESIGN.md C13, family T).
 pub fn template(name: &str) -> Case {
     let mut c = Case::new(name);
@@ -399,7 +440,7 @@ impl Prop for C13 {
             level: "exploration",
             rule: "case = pre-ops + 2..4 simulated threads x 1..3 calls (execute/parse/parse+exec/register_* with unique marker handlers) \
                    + post-join uses, generated from the seed (family S: each evaluation looks up at most one concurrently registered name, once; \
-                   family T: the four fixed torn-read micro-histories); each case runs under a calibration schedule and a seeded portfolio \
+                   family R: threads only (re-)register infix operators with different complete configurations and unparenthesised chains reveal the outcome after the join; family T: the four fixed torn-read micro-histories); each case runs under a calibration schedule and a seeded portfolio \
                    (PCT depth 1..4 with windowed change points / sticky / uniform random). evaluations = simulated executions of the real engine; \
                    distinct_nontrivial = distinct (case, recorded schedule) pairs whose history contains at least one pair of calls from different \
                    threads that overlap in real time",
@@ -422,6 +463,8 @@ impl Prop for C13 {
         // every 25th index is a T template (cycling), the rest are S cases
         let (case, nsched) = if idx % 25 == 24 {
             (template(TEMPLATES[((idx / 25) % 4) as usize]), 400u64)
+        } else if idx % 25 == 23 {
+            (gen_r(&mut r), 40u64)
         } else {
             (gen_s(&mut r, tier == Tier::Thorough), if tier == Tier::Thorough { 60u64 } else { 40u64 })
         };
